@@ -912,6 +912,32 @@ class ExprMixin(object):
                 cs = [self.compare_sym(st, "==", x, y, node, module, False) for x, y in zip(a.items, b.items)]
                 r = mk_and(cs)
                 return r if sym == "==" else mk_not(r)
+        if sym in ("==", "!=") and isinstance(a, Ref) and isinstance(b, Ref) and st.heap[a.id].kind == "map" and st.heap[b.id].kind == "map":
+            # dict == dict: the same keys present with equal values; two OrderedDicts are compared
+            # in order as well - when that order is the input's field order the comparison tells
+            # apart objects that differ in the order of their fields only
+            ma, mb = st.heap[a.id], st.heap[b.id]
+            if ma.ordered and mb.ordered and (getattr(ma, "input_ordered", False) or getattr(mb, "input_ordered", False)):
+                self.event("ordered_map_eq", node, module, st, what="== between two OrderedDicts that keep the order in which the fields were written")
+            cs = []
+            for k in list(ma.order) + [k for k in mb.order if k not in ma.entries]:
+                pa, va = ma.entries.get(k, (FALSE, None))
+                pb, vb = mb.entries.get(k, (FALSE, None))
+                if va is not None and vb is not None and isinstance(pa, Term) and isinstance(pb, Term) and pa == pb:
+                    same_ = TRUE if (isinstance(va, Term) and isinstance(vb, Term) and va == vb) else self.compare_sym(st, "==", va, vb, node, module, False)
+                    if isinstance(same_, Const) and truth_const(same_.v):
+                        continue  # the same presence condition and the same value on both sides
+                    cs.append(mk_or([mk_not(pa), same_]))
+                    continue
+                both = mk_and([pa, pb])
+                neither = mk_and([mk_not(pa), mk_not(pb)])
+                if va is not None and vb is not None:
+                    same = self.compare_sym(st, "==", va, vb, node, module, False)
+                    cs.append(mk_or([neither, mk_and([both, same])]))
+                else:
+                    cs.append(neither)
+            r = mk_and(cs)
+            return r if sym == "==" else mk_not(r)
         if sym in ("==", "!=") and isinstance(a, (Choice, ClassVal)) and isinstance(b, (Choice, ClassVal)):
             # classes selected by conditions: equal exactly when the same class is selected
             def alts(x):
